@@ -617,14 +617,14 @@ Fixpoint sorted_exp (l : list dent) : Prop :=
 Lemma ins_exp_in x l y : In y (ins_exp x l) <-> y = x \/ In y l.
 Proof.
   induction l as [|z t IH]; cbn [ins_exp In]; [intuition congruence|].
-  destruct (dexp z <=? dexp x); cbn [In]; [rewrite IH|]; intuition congruence.
+  destruct (dexp z <? dexp x); cbn [In]; [rewrite IH|]; intuition congruence.
 Qed.
 
 Lemma ins_exp_sorted x l : sorted_exp l -> sorted_exp (ins_exp x l).
 Proof.
   induction l as [|z t IH]; cbn [ins_exp sorted_exp].
   - intros _. split; [intros y []|exact I].
-  - intros [H1 H2]. destruct (Z.leb_spec (dexp z) (dexp x)); cbn [sorted_exp].
+  - intros [H1 H2]. destruct (Z.ltb_spec (dexp z) (dexp x)); cbn [sorted_exp].
     + split; [|now apply IH]. intros y Hy. apply ins_exp_in in Hy. destruct Hy as [->|Hy]; [lia|now apply H1].
     + split; [|split; assumption]. intros y [<-|Hy]; [lia|]. specialize (H1 y Hy). lia.
 Qed.
